@@ -222,23 +222,62 @@ pub fn run(seed: u64, full: bool) -> (Vec<Value>, u64) {
         emit_compact(&mut out, scen, &format!("worker thread life t={}", t), &sec);
         scen += 1;
     }
+    // ---- (h) many commitments at a higher extension degree (scratch space that no longer fits small fixed buffers): a proof, and the
+    // prover's error path (the LAST opening does not open its commitment; the LAST promise exceeds its value)
+    for &(m, t) in &[(16usize, 3usize), (64, 1)] {
+        let pc = create_pedersen_gens_with_extension_degree(ExtensionDegree::try_from(t).unwrap());
+        let params = RangeParameters::<P>::init(2, m, pc).unwrap();
+        let blinds: Vec<Vec<Scalar>> = (0..m).map(|j| (0..t).map(|k| hash_scalar(&[b"mem-wide-blind", &seed.to_le_bytes(), &(m as u64).to_le_bytes(), &(j as u64).to_le_bytes(), &(k as u64).to_le_bytes()])).collect()).collect();
+        let vals: Vec<u64> = (0..m).map(|j| 1 + (j as u64 % 3)).collect();
+        let cs: Vec<P> = (0..m).map(|j| params.pc_gens().commit(&Scalar::from(vals[j]), &blinds[j]).unwrap()).collect();
+        let mut sec = Secrets { names: vec![], pats: vec![] };
+        for j in (0..m).step_by(m / 8) {
+            for k in 0..t {
+                sec.names.push(format!("blinding[{}][{}]", j, k));
+                sec.pats.push(blinds[j][k].as_bytes().to_vec());
+            }
+        }
+        let mk_w = || RangeWitness::init((0..m).map(|j| CommitmentOpening::new(vals[j], blinds[j].clone())).collect()).unwrap();
+        let good = RangeStatement::init(params.clone(), cs.clone(), vec![None; m], None).unwrap();
+        let mut bad_cs = cs.clone();
+        bad_cs[m - 1] = bad_cs[0].clone();
+        let bad_open = RangeStatement::init(params.clone(), bad_cs, vec![None; m], None).unwrap();
+        let bad_prom = RangeStatement::init(params.clone(), cs.clone(), (0..m).map(|j| if j == m - 1 { Some(vals[j] + 1) } else { None }).collect(), None).unwrap();
+        for (stmt, name) in [(&good, "prove"), (&bad_open, "prove error path: last opening wrong"), (&bad_prom, "prove error path: last promise above the value")] {
+            let w = mk_w();
+            let mut ext = RngModel::new("chacha", seed ^ 0xabc);
+            let mut tr = Transcript::new(b"bppv mem");
+            armed(&sec, || {
+                let r = RangeProof::<P>::prove_with_rng(&mut tr, stmt, &w, &mut ext);
+                drop(r);
+                drop(w);
+            });
+            emit_compact(&mut out, scen, &format!("{} [{} commitments, degree {}]", name, m, t), &sec);
+            scen += 1;
+        }
+    }
     // ---- (g) a batch above the chunk limit mixing aggregation factors, some statements carrying a seed; every mode
     // (the unoptimised build needs over a minute for it: there only in the thorough tier)
     if full || !cfg!(debug_assertions) {
         let nb = 258usize;
         let pc = create_pedersen_gens_with_extension_degree(ExtensionDegree::DefaultPedersen);
         let params = RangeParameters::<P>::init(2, 2, pc).unwrap();
-        let mut stmts = vec![];
-        let mut proofs = vec![];
+        // (capacity reserved up front: a growing vector would leave unwiped copies of the statements, seeds included, behind)
+        let mut stmts = Vec::with_capacity(nb);
+        let mut proofs = Vec::with_capacity(nb);
         let mut sec = Secrets { names: vec![], pats: vec![] };
         for i in 0..nb {
-            let m = 1 + i % 2;
+            // (single commitments on both sides of the chunk boundary, so that both can carry a seed)
+            let m = if i >= 254 { 1 } else { 1 + i % 2 };
             let bl: Vec<Vec<Scalar>> = (0..m).map(|j| vec![hash_scalar(&[b"mem-big-blind", &seed.to_le_bytes(), &(i as u64).to_le_bytes(), &(j as u64).to_le_bytes()])]).collect();
             let cs: Vec<P> = (0..m).map(|j| params.pc_gens().commit(&Scalar::from((i + j) as u64 % 4), &bl[j]).unwrap()).collect();
-            let sd = if m == 1 && i % 64 == 0 { Some(hash_scalar(&[b"mem-big-seed", &seed.to_le_bytes(), &(i as u64).to_le_bytes()])) } else { None };
+            let sd = if m == 1 && (i % 64 == 0 || i == 255 || i == 257) { Some(hash_scalar(&[b"mem-big-seed", &seed.to_le_bytes(), &(i as u64).to_le_bytes()])) } else { None };
             if let Some(s) = &sd {
                 sec.names.push(format!("seed of statement {}", i));
                 sec.pats.push(s.as_bytes().to_vec());
+                // the mask recovered for a seeded statement IS its blinding factor: copies of it are secrets too
+                sec.names.push(format!("blinding / recovered mask of statement {}", i));
+                sec.pats.push(bl[0][0].as_bytes().to_vec());
             }
             let stmt = RangeStatement::init(params.clone(), cs, vec![None; m], sd).unwrap();
             let w = RangeWitness::init((0..m).map(|j| CommitmentOpening::new((i + j) as u64 % 4, bl[j].clone())).collect()).unwrap();
